@@ -9,9 +9,10 @@ pub mod acme_common { pub mod error {
         #[verifier::external_body]
         fn clone(&self) -> (r: Self) ensures r == *self { Error { message: self.message.clone() } }
     }
+    pub uninterp spec fn error_prefix_spec(msg: Seq<char>, prefix: Seq<char>) -> Seq<char>;
     impl Error {
         #[verifier::external_body]
-        pub fn prefix(&self, prefix: &str) -> Self { unimplemented!() }
+        pub fn prefix(&self, prefix: &str) -> (r: Self) ensures r.message@ == error_prefix_spec(self.message@, prefix@) { unimplemented!() }
     }
     impl vstd::std_specs::convert::FromSpecImpl<String> for Error {
         open spec fn obeys_from_spec() -> bool { false }
@@ -48,6 +49,18 @@ pub mod crypto {
     pub uninterp spec fn pem_key(pem: Seq<u8>) -> Option<KeyPair>; // its inverse where defined
     pub struct X509Certificate { pub id: Ghost<int> }
     pub uninterp spec fn pem_cert(pem: Seq<u8>) -> Option<X509Certificate>;
+    pub uninterp spec fn cert_expires_ns(c: X509Certificate) -> nat;      // max(0, notAfter - now) in nanoseconds (proved in unit x509time)
+    pub uninterp spec fn cert_san(c: X509Certificate) -> Set<Seq<char>>; // dNSName / iPAddress subjectAltName entries as text
+    // text of a set of strings (HashSet<String> seen through its elements' characters)
+    pub uninterp spec fn strset(h: std::collections::HashSet<String>) -> Set<Seq<char>>;
+    #[derive(Clone, Copy)]
+    pub struct KeyType { pub id: u8 }
+    #[derive(Clone, Copy)]
+    pub struct HashFunction { pub id: u8 }
+    #[derive(Clone, Copy, PartialEq, Eq, Hash)]
+    pub struct SubjectAttribute { pub id: u8 }
+    #[verifier::external]
+    impl std::fmt::Display for KeyType { fn fmt(&self, f: &mut std::fmt::Formatter) -> std::fmt::Result { Ok(()) } }
     impl KeyPair {
         #[verifier::external_body]
         pub fn private_key_to_pem(&self) -> (r: Result<Vec<u8>, Error>)
@@ -60,6 +73,12 @@ pub mod crypto {
         #[verifier::external_body]
         pub fn from_pem(pem: &Vec<u8>) -> (r: Result<X509Certificate, Error>)
             ensures r matches Ok(c) ==> pem_cert(pem@) == Some(c) { unimplemented!() }
+        #[verifier::external_body]
+        pub fn expires_in(&self) -> (r: Result<std::time::Duration, Error>)
+            ensures r matches Ok(d) ==> crate::dur(d) == cert_expires_ns(*self) { unimplemented!() }
+        #[verifier::external_body]
+        pub fn subject_alt_names(&self) -> (r: std::collections::HashSet<String>)
+            ensures strset(r) == cert_san(*self) { unimplemented!() }
     }
     }
 }
